@@ -37,6 +37,21 @@ pub fn re_num(src: &mut Src, n: &NumLit) -> NumLit {
         let text = *src.pick(&["-0", "-0.0", "-0e0", "-0.0E+1", "0.0", "0e5"]);
         return NumLit { text: text.to_string(), val: if text.starts_with('-') { -0.0 } else { 0.0 }, int_text: false };
     }
+    // the decimal point shifted through the digits, as `{:e}` / `%e` formatting writes a number: 110 = 1.1e2 =
+    // 11.0e1 = 0.11e3 = 1100e-1 (every one of them denotes exactly the integer)
+    if i != 0 && src.chance(1, 5) {
+        let digits = i.unsigned_abs().to_string();
+        let sign = if i < 0 { "-" } else { "" };
+        let k = src.below(digits.len() + 1);
+        let text = if k == 0 {
+            format!("{}0.{}{}{}", sign, digits, src.pick(&["e", "E", "e+"]), digits.len())
+        } else if k == digits.len() {
+            format!("{}{}00{}-2", sign, digits, src.pick(&["e", "E"]))
+        } else {
+            format!("{}{}.{}{}{}", sign, &digits[..k], &digits[k..], src.pick(&["e", "E", "e+", "E+0"]), digits.len() - k)
+        };
+        return NumLit { text, val: f, int_text: false };
+    }
     let (text, int_text) = match src.below(10) {
         // exponents with a sign and leading zeros (`exp = "e" [ "-" / "+" ] 1*DIGIT`)
         7 => (format!("{}e00", i), false),
